@@ -1260,3 +1260,51 @@ Proof.
   intros ts minimum allowed now g Hb Hg nm cl gr id ex Hcl Hgr Hid Hex Hs out s Hout Hi.
   exact (json_every_status sch _ He Hall ts minimum allowed now g Hb Hg nm cl gr id ex Hcl Hgr Hid Hex Hs out s Hout Hi).
 Qed.
+
+(* ---- configured modules: the association composed with the theorems about the shipped templates ---------- *)
+
+Definition mc_file (m : modcfg) (good : bool) : string := if good then mc_close m else mc_open m.
+
+Lemma module_renders_file : forall sch tbl cfg m good d,
+  NoDup (map mc_name cfg) -> In m cfg -> (good = true -> mc_send_close m = true) ->
+  module_renders sch tbl cfg (mc_name m) good d = exec sch (lookup_tmpl tbl (mc_file m good)) d.
+Proof.
+  intros sch tbl cfg m good d Hnd Hin Hg.
+  destruct (module_renders_configured_template sch tbl cfg m d Hnd Hin) as [Ho Hc].
+  destruct good; simpl; [apply Hc, Hg; reflexivity|exact Ho].
+Qed.
+
+(* every module configured with shipped template files renders, for an open notification and - if it sends them -
+   for a close notification, for every status the evaluator can hand to a notifier *)
+Theorem configured_modules_render : forall sch (tbl : list (string * tmpl)) cfg,
+  embed_ok sch = true -> forallb (fun p => typecheck sch (snd p) burrow_facts) tbl = true ->
+  NoDup (map mc_name cfg) ->
+  forall m good, In m cfg -> (good = true -> mc_send_close m = true) -> assoc (mc_file m good) tbl <> None ->
+  forall ts minimum allowed now g, Eval.eval_group ts minimum allowed now = Eval.Ok g ->
+  forall nm cl gr id ex,
+    exists out, module_renders sch tbl cfg (mc_name m) good (data_of sch nm cl gr id ex (Eval.filter_view g)) = Ok out.
+Proof.
+  intros sch tbl cfg He Hall Hnd m good Hin Hg Hf ts minimum allowed now g Hev nm cl gr id ex.
+  rewrite (module_renders_file sch tbl cfg m good _ Hnd Hin Hg).
+  unfold lookup_tmpl. destruct (assoc (mc_file m good) tbl) as [t|] eqn:Ea; [|contradiction].
+  exact (shipped_render sch tbl He Hall _ t (assoc_In _ _ _ Ea) ts minimum allowed now g Hev nm cl gr id ex).
+Qed.
+
+Theorem configured_modules_json : forall sch (tbl : list (string * tmpl)) (names : list string) cfg,
+  embed_ok sch = true ->
+  forallb (fun n => json_skeleton_ok sch burrow_facts (lookup_tmpl tbl n)) names = true ->
+  NoDup (map mc_name cfg) ->
+  forall m good, In m cfg -> (good = true -> mc_send_close m = true) -> In (mc_file m good) names ->
+  forall ts minimum allowed now g, bounded ts -> Eval.eval_group ts minimum allowed now = Eval.Ok g ->
+  forall nm cl gr id ex,
+    safe_string cl = true -> safe_string gr = true -> safe_string id = true ->
+    forallb (fun kv => safe_string (snd kv)) ex = true -> group_names_safe nm (Eval.filter_view g) = true ->
+    forall out s,
+      module_renders sch tbl cfg (mc_name m) good (data_of sch nm cl gr id ex (Eval.filter_view g)) = Ok out ->
+      inst out s -> json_valid s = true.
+Proof.
+  intros sch tbl names cfg He Hall Hnd m good Hin Hg Hf ts minimum allowed now g Hb Hev nm cl gr id ex
+         Hcl Hgr Hid Hex Hs out s Hout Hi.
+  rewrite (module_renders_file sch tbl cfg m good _ Hnd Hin Hg) in Hout.
+  exact (shipped_json sch tbl names He Hall _ Hf ts minimum allowed now g Hb Hev nm cl gr id ex Hcl Hgr Hid Hex Hs out s Hout Hi).
+Qed.
